@@ -162,7 +162,7 @@ CHECKS = {
                  "bytes <= burst + rate x (t - first read attempt) per connection and summed for the total limit; first read not before entry + latency - 5 ms; bytes "
                  "delivered == stream. Non-trivial = stream > 2 x burst (>= 2 limiter waits) or >= 2 connections under a total limit; distinct = distinct case."),
         "assumptions": ["time is read after the observed read returned and the reference instant before the first read is attempted, so scheduling delay can only loosen the bound (no false 'too fast')",
-                        "tolerance: 1 byte per connection + rate x 1 ms"],
+                        "tolerance: 1 byte per connection; for the total limit shared by n > 1 connections also total rate x 1 ms x n (golang.org/x/time/rate credits an interval twice when a caller with an older time stamp gets the lock later)"],
         "min_classes": {"quick": {"C17/per-connection-limit": 80, "C17/total-limit-shared": 30, "C17/latency": 50, "C17/trickling-client": 50, "C17/burst-only": 10}},
         "runs": [
             {"name": "throttle", "pkg": "./c17", "run": ".", "rapid_checks": {"quick": 40, "thorough": 1500},
